@@ -135,6 +135,12 @@ def plain_twin(b):
 
 def compare_with_plain(b):
     fails = []
+    # a derived parameter that is not a quantity at all (left "no value") cannot be carried by a plain job: the builder model
+    # has then no plain counterpart, which is itself a departure from the stated rule
+    for jn in ("video_job", "webapp_job", "genai_job"):
+        for a in ("data_transferred", "data_stored", "request_duration", "compute_needed", "ram_needed"):
+            if isinstance(getattr(b[jn], a), H.EmptyExplainableObject): fails.append(f"derived-parameter-has-no-value:{jn}.{a}")
+    if fails: return fails
     ps, po = plain_twin(b)
     pairs = [(b["cloud"], po["cloud"]), (b["gpu"], po["gpu"]), (b["cloud"].storage, po["cloud"].storage), (b["gpu"].storage, po["gpu"].storage),
              (b["net"], po["net"]), (b["up"], po["up"])]
@@ -147,11 +153,48 @@ def compare_with_plain(b):
 
 
 ITEMS = []
+SKIPPED = []
+
+
+def all_cloud_instances():
+    from efootprint.builders.hardware.boavizta_cloud_server import BoaviztaCloudServer
+    d = BoaviztaCloudServer.conditional_list_values()["instance_type"]["conditional_list_values"]
+    return sorted((getattr(k, "value", k), getattr(i, "value", i)) for k, v in d.items() for i in v)
+
+
+def _cloud_chunk(chunk):
+    """derived parameters of a stand-alone cloud server for every (provider, instance type) of the chunk, against the packaged data read independently"""
+    from efootprint.builders.hardware.boavizta_cloud_server import BoaviztaCloudServer
+    fails, skipped = [], []
+    from efootprint.builders.hardware.boaviztapi_utils import call_boaviztapi
+    for prov, inst in chunk:
+        try:
+            call_boaviztapi(url="https://api.boavizta.org/v1/cloud/instance", params={"provider": prov, "instance_type": inst})
+        except Exception as ex:
+            # the third-party boaviztapi package itself fails on this archetype (packaged data error: 6 of 1919 pairs at the pinned
+            # version): nothing the e-footprint builder could derive; counted as skipped, listed in the evidence
+            skipped.append(f"{prov}/{inst}: boaviztapi raises {type(ex).__name__}"); continue
+        try:
+            srv = BoaviztaCloudServer.from_defaults("cloud", provider=SourceObject(prov), instance_type=SourceObject(inst), storage=Storage.ssd("cloud storage"))
+            for a in ("api_call_response", "carbon_footprint_fabrication", "power", "ram", "compute"): getattr(srv, "update_" + a)()
+            for attr, want in expected_cloud(srv).items():
+                got = getattr(srv, attr).value
+                try: ok = qclose(got, want)
+                except Exception: ok = False
+                if not ok: fails.append(f"derived:{prov}/{inst}.{attr}: {got} != {want}")
+        except Exception as ex:
+            fails.append(f"derived:{prov}/{inst}: raised {type(ex).__name__}: {str(ex)[:80]}")
+    SKIPPED.extend(skipped)
+    return fails
 
 
 def _case(i):
     kind, kw, change = ITEMS[i]
     H.deterministic_ids(14)
+    if kind == "cloud-derived":
+        del SKIPPED[:]
+        f = _cloud_chunk(kw)
+        return {"case": f"cloud-derived|{kw[0]}..{kw[-1]} ({len(kw)} instance types)", "status": "fails" if f else "ok", "fails": f[:6], "skipped": list(SKIPPED)}
     out = {"case": f"{kind}|{kw}|{(change[0], change[1], str(change[2]() .value if callable(change[2]) else change[2])) if change else None}", "status": "ok", "fails": []}
     try:
         b = H.build_services_system(**kw)
@@ -161,10 +204,17 @@ def _case(i):
         else:
             # refresh: change a builder input on the live system, compare with a system built with the new input
             obj, attr, val, kw2 = change
-            if attr == "provider+model":
-                ModelingUpdate([[b["genai"].provider, SourceObject(val[0])], [b["genai"].model_name, SourceObject(val[1])]])
-            else:
-                setattr(b[obj], attr, val() if callable(val) else val)
+            try:
+                if attr == "provider+model":
+                    ModelingUpdate([[b["genai"].provider, SourceObject(val[0])], [b["genai"].model_name, SourceObject(val[1])]])
+                else:
+                    setattr(b[obj], attr, val() if callable(val) else val)
+            except Exception as ex:
+                if H.is_float_cancellation_rejection(ex): raise
+                # every change of the alphabet is a valid builder input (each is also used to build a fresh system below):
+                # the library refusing or crashing on it means the derived parameters are not refreshed
+                out["fails"] = [f"builder-input-change-raised:{type(ex).__name__}"]; out["status"] = "fails"
+                return out
             f += check_derived(b)
             fresh = H.build_services_system(**{**kw, **kw2}) if kw2 is not None else None
             if fresh is not None:
@@ -183,7 +233,7 @@ RESOLUTIONS = ["480p (640 x 480)", "720p (1280 x 720)", "1080p (1920 x 1080)", "
 TECHS = ["go-pgx", "jvm-kotlin-spring", "node-express-sequelize", "php-symfony", "rust-actix-sqlx"]
 MODELS = [("openai", "gpt-3.5-turbo-1106"), ("mistralai", "open-mistral-7b"), ("mistralai", "open-mixtral-8x7b"), ("mistralai", "mistral-medium"),
           ("google", "gemini-1.5-pro"), ("huggingface_hub", "databricks/dbrx-base"), ("cohere", "command")]
-INSTANCES = [("scaleway", "ent1-s"), ("scaleway", "ent1-l"), ("azure", "d16ads_v5"), ("gcp", "c4a-standard-16")]
+INSTANCES = [("scaleway", "ent1-s"), ("aws", "c4.large"), ("scaleway", "ent1-l"), ("azure", "d16ads_v5"), ("gcp", "c4a-standard-16"), ("gcp", "g1-small")]
 
 
 def run(tier, seed, procs=16):
@@ -191,7 +241,7 @@ def run(tier, seed, procs=16):
     for r in RESOLUTIONS: items.append(("faithful", {"video_resolution": r}, None))
     for t in TECHS: items.append(("faithful", {"technology": t}, None))
     for p, m in MODELS: items.append(("faithful", {"provider": p, "model_name": m}, None))
-    for p, i in INSTANCES[:2 if tier == "quick" else 4]: items.append(("faithful", {"cloud_provider": p, "instance_type": i}, None))
+    for p, i in INSTANCES[:2 if tier == "quick" else 6]: items.append(("faithful", {"cloud_provider": p, "instance_type": i}, None))
     items.append(("faithful", {"with_plain_job": False}, None))
     Qv = lambda v, un: (lambda: SourceValue(v * un))
     items += [
@@ -217,11 +267,15 @@ def run(tier, seed, procs=16):
         ("refresh", {}, ("gpu", "gpu_power", Qv(300, u.W / u.gpu), None)),
         ("refresh", {}, ("cloud", "instance_type", lambda: SourceObject("ent1-xl"), {"instance_type": "ent1-xl"})),
     ]
+    inst = all_cloud_instances()
+    for k in range(0, len(inst), 64): items.append(("cloud-derived", inst[k:k + 64], None))
     ITEMS[:] = items
     res = H.run_parallel(_case, list(range(len(items))), procs)
-    viol, samples, nontrivial = [], [], set()
+    viol, samples, nontrivial, skipped, herr = [], [], set(), [], []
     for r in res:
-        if r["status"] == "harness-error": raise RuntimeError("bounded harness error: " + r.get("error", ""))
+        skipped += r.get("skipped", [])
+        if r["status"] == "harness-error":
+            herr.append(r.get("error", "")); continue
         nontrivial.add(r["case"])
         if len(samples) < 4: samples.append({"case": r["case"][:160], "result": r["status"]})
         if r["status"] == "ok": continue
@@ -229,8 +283,12 @@ def run(tier, seed, procs=16):
             viol.append({"signature": "D3", "what": "deletion-free model rejected", "input": {"case": r["case"]}}); continue
         viol.append({"signature": f"C17|{r['case'][:200]}|{';'.join(x.split(':')[0] + ':' + x.split(':')[1] if ':' in x else x for x in r['fails'])[:250]}",
                      "what": f"C17 {r['case'][:200]}: {r['fails'][:4]}", "input": {"case": r["case"]}})
-    return {"evaluations": len(res), "distinct_nontrivial": len(nontrivial),
-            "rule": "one case = a system holding a cloud server, a GPU server, the three services and their jobs (optionally mixed with a plain job), for a categorical choice (7 resolutions, 5 technologies, 7 models of every parameter-structure kind, 2-4 instance types) "
+    # a case the harness could not evaluate is a checker error unless other cases already exhibit a violation (then it is reported with them)
+    if len(skipped) > 20: raise RuntimeError(f"vacuous: {len(skipped)} cloud instance types skipped: {skipped[:3]}")
+    if herr and not viol: raise RuntimeError("bounded harness error: " + herr[0])
+    return {"evaluations": len(res), "distinct_nontrivial": len(nontrivial), "harness_errors": len(herr),
+            "rule": "one case = a system holding a cloud server, a GPU server, the three services and their jobs (optionally mixed with a plain job), for a categorical choice (7 resolutions, 5 technologies, 7 models of every parameter-structure kind, 2-6 instance types incl. fractional-memory ones) "
                     "or after changing one builder input on the live system; derived parameters vs the stated rules recomputed independently, footprints vs the plain twin model, refresh vs a fresh build",
             "samples": samples, "violations": viol, "exhaustive": False,
-            "bound": f"{len(items)} builder systems; data tables (ecologits, ecobenchmark, boavizta archetypes) are trusted data"}
+            "skipped_external": skipped,
+            "bound": f"{len(items)} cases (builder systems, plus the derived parameters of a stand-alone cloud server for ALL {len(inst)} packaged (provider, instance type) pairs in chunks of 64); data tables (ecologits, ecobenchmark, boavizta archetypes) are trusted data"}
